@@ -389,3 +389,20 @@ def apply_rename(spec, rename):
             r["text"] = word(r["text"])
             r["tree"] = tree(r["tree"])
             r["concl"] = [dict(c, var=rename.get(c["var"], c["var"]), term=rename.get(c["term"], c["term"]) if c["term"] else None) for c in r["concl"]]
+
+
+def make_rule(fl, rnd, text, engine):
+    """the same rule through different public routes"""
+    route = rnd.choice(["create", "create", "text-setter", "rule-block", "importer"])
+    if route == "create":
+        return fl.Rule.create(text, engine)
+    if route == "text-setter":
+        rule = fl.Rule()
+        rule.text = text
+        rule.load(engine)
+        return rule
+    if route == "rule-block":
+        rule = fl.Rule.create(text)
+        fl.RuleBlock("tmp", rules=[rule]).load_rules(engine)
+        return rule
+    return fl.FllImporter().rule(f"rule: {text}", engine)
